@@ -16,10 +16,21 @@ for d in seeded/${ONLY:-}*/; do
     { [ -n "$base" ] && git -C $wt checkout -q --detach $base && git -C $wt apply "$PWD/${d}patch.diff"; } || { echo "$d: patch does not apply"; fail=1; continue; }
     echo "$(basename $d): applied to its base commit $base (does not apply to HEAD)"
   fi
+  # which checks have to fire: meta.json caught_by (first word of each entry); empty = deliberately not claimed (must stay silent)
+  want=$(python3 -c "import json;m=json.load(open('${d}meta.json'));print(' '.join(sorted({c.split()[0] for c in m.get('caught_by',[])})))")
+  if [ -z "$want" ]; then
+    out=$(SMG_REPO=$wt ./check $id $tier 2>&1); rc=$?
+    echo "$(basename $d): $id $tier rc=$rc (deliberately not claimed, see meta.json) $(echo "$out" | grep -E '^(VIOLATION|INCONCLUSIVE|HELD)' | head -1 | cut -c1-120)"
+    continue
+  fi
   for s in ${SEEDS:-0}; do
-    out=$(SMG_REPO=$wt VERIF_SEED=$s ./check $id $tier 2>&1); rc=$?
-    echo "$(basename $d): $id $tier seed=$s rc=$rc $(echo "$out" | grep -E '^(VIOLATION|INCONCLUSIVE|HELD)' | head -1 | cut -c1-160)"
-    [ $rc -eq 1 ] || fail=1
+    for c in $want; do
+      out=$(SMG_REPO=$wt VERIF_SEED=$s ./check $c $tier 2>&1); rc=$?
+      echo "$(basename $d): $c $tier seed=$s rc=$rc $(echo "$out" | grep -E '^(VIOLATION|INCONCLUSIVE|HELD)' | head -1 | cut -c1-160)"
+      # the property's own check has to fire for every seed (or the only listed one); the others are reported
+      case " $want " in *" $id "*) prim=$id;; *) prim=$(echo $want | cut -d' ' -f1);; esac
+      [ "$c" != "$prim" ] || [ $rc -eq 1 ] || { fail=1; echo "  ^^^ MISSED by its primary check"; }
+    done
   done
 done
 git -C /repo worktree remove --force $wt
